@@ -153,6 +153,12 @@ class Flow:
         if k in ("while", "loop"):
             self.scan_reads(n, state)
             return set(state), False
+        if k == "mcall" and n["m"] == "for_each" and n.get("args") and strip(n["args"][0]).get("k") == "closure" and \
+                (n.get("def") or "").endswith("Iterator::for_each"):
+            # it.for_each(|x| body) is `for x in it { body }`
+            clo = strip(n["args"][0])
+            fake = {"k": "for", "pat": clo["params"][0] if clo.get("params") else {"k": "wild"}, "iter": n["recv"], "body": clo["body"], "sp": n.get("sp")}
+            return self.flow_for(fake, state), False
         if k == "mcall":
             rp = access_path(n["recv"])
             if rp and len(rp) == 1 and rp[0].split("#")[0] == "self" and (n.get("def") or "").startswith(self.prefix):
@@ -214,6 +220,14 @@ class Flow:
             for a in n["args"]:
                 self.scan_reads(a, st)
             return st | {self_field(n["recv"])}, False
+        # closures handed to iterator consumers (find / any / all / position / map ..) may run zero or more times: the calls of
+        # receiver methods inside them are read with the state before, and whatever they write does not count as definitely written
+        if k in ("mcall", "call"):
+            for a in n.get("args", []):
+                a0 = strip(a)
+                if a0.get("k") == "closure" and any(x.get("k") == "mcall" and (x.get("def") or "").startswith(self.prefix) and self.prefix
+                                                     for x in walk(a0["body"])):
+                    self.flow(a0["body"], set(state))
         # generic expression: reads of self fields, then recurse is unnecessary (scan covers the subtree)
         self.scan_reads(n0, state)
         return set(state), False
